@@ -17,7 +17,7 @@ META = {
     "timeout": {"quick": 300, "thorough": 1800}, "parts": {"quick": 16, "thorough": 16}},
   "h_link_distinct": {"kind": "L",
     "functions": ["Equivalence.is_same/is_complement/is_eql", "CIGAR.complement", "CIGAR.Operation.__eq__", "FromTo.from_end/to_end", "SegmentEnd.__eq__"],
-    "bounds": "as h_link_laws; the second link differs in exactly one aspect: from orientation / to orientation / to segment / one operation length (+1) / one operation code",
+    "bounds": "as h_link_laws; the second link differs in exactly one aspect: from orientation / to orientation / to segment / one operation length (+1) / one operation code / the complement ends with the overlap left unspecified on one side only / the same ends likewise",
     "timeout": {"quick": 300, "thorough": 1800}, "parts": {"quick": 16, "thorough": 16}},
   "h_add_complement": {"kind": "G",
     "functions": ["Gfa.add_line", "Connection.connect", "Finders._search_duplicate/_search_link", "link References._process_not_unique",
@@ -86,7 +86,7 @@ def h_link_distinct(pf: bool, pt: bool, selfl: bool, ops: List[Tuple[int, int]],
   """
   pre: 0 <= len(ops) <= MAXOPS
   pre: all(0 <= c < 7 and 0 <= n for (c, n) in ops)
-  pre: 0 <= vary < 5
+  pre: 0 <= vary < 7
   pre: (4 * selfl + 2 * pf + pt + 8 * (vary % 2)) % NPART == PART
   post: _ == True
   """
@@ -94,7 +94,7 @@ def h_link_distinct(pf: bool, pt: bool, selfl: bool, ops: List[Tuple[int, int]],
   fo, to, f, t, pairs = _setup(pf, pt, selfl, ops)
   l = _mk_link(f, fo, t, to, pairs)
   # a link differing in anything but the complement symmetry is a different edge
-  v = vp.concretize(vary, 0, 4)
+  v = vp.concretize(vary, 0, 6)
   if v == 0:
     d = _mk_link(f, INV[fo], t, to, pairs)
   elif v == 1:
@@ -104,6 +104,13 @@ def h_link_distinct(pf: bool, pt: bool, selfl: bool, ops: List[Tuple[int, int]],
   elif v == 3:
     if not pairs: return True
     d = _mk_link(f, fo, t, to, [(pairs[0][0], pairs[0][1] + 1)] + pairs[1:])
+  elif v == 5:
+    # the complement ends, but the overlap left unspecified on one of the two links only
+    if not pairs: return True
+    d = _mk_link(t, INV[to], f, INV[fo], [])
+  elif v == 6:
+    if not pairs: return True
+    d = _mk_link(f, fo, t, to, [])
   else:
     if not pairs: return True
     k0 = pairs[-1][0]
